@@ -210,15 +210,18 @@ def ok_guarded(body, target_bb, site):
     return True, "ok"
 
 
-def field_stores(body, field, const=None):
-    """Blocks/statements assigning to a place whose last field projection is `field`."""
+def field_stores(body, field, const=None, adt=None, include_cleanup=False):
+    """Blocks/statements assigning to a place whose last field projection is `field` (optionally of the
+    struct `adt`). Cleanup (unwind) blocks are skipped unless asked for."""
     out = []
     for b in range(body.n):
+        if body.is_cleanup(b) and not include_cleanup:
+            continue
         for i, st in enumerate(body.blocks[b]["stmts"]):
             if st["k"] != "assign":
                 continue
             fs = [e for e in st["pl"]["p"] if isinstance(e, dict) and "f" in e]
-            if fs and fs[-1]["n"] == field:
+            if fs and fs[-1]["n"] == field and (adt is None or fs[-1].get("a") == adt):
                 if const is not None:
                     rv = st["rv"]
                     if not (rv["k"] == "use" and rv["ops"][0]["k"] == "const" and rv["ops"][0].get("val") == str(const)):
@@ -281,3 +284,119 @@ def arg_origin_has_field(body, op, field):
         if field in o.path or (o.kind == "upvar" and o.name == field):
             return True
     return False
+
+
+# ---------------------------------------------------------------------------- comparisons
+CMP_CALLS = {
+    "std::cmp::PartialOrd::lt": "lt", "std::cmp::PartialOrd::le": "le",
+    "std::cmp::PartialOrd::gt": "gt", "std::cmp::PartialOrd::ge": "ge",
+    "std::cmp::impls::lt": "lt", "std::cmp::impls::le": "le",
+    "std::cmp::impls::gt": "gt", "std::cmp::impls::ge": "ge",
+    "std::cmp::PartialEq::eq": "eq", "std::cmp::PartialEq::ne": "ne",
+    "std::cmp::impls::eq": "eq", "std::cmp::impls::ne": "ne",
+    "std::vec::partial_eq::eq": "eq", "std::vec::partial_eq::ne": "ne",
+    "<std::option::Option<T> as std::cmp::PartialEq>::eq": "eq",
+    "<std::string::String as std::cmp::PartialEq>::eq": "eq",
+    "<std::io::ErrorKind as std::cmp::PartialEq>::eq": "eq",
+    "<std::cmp::Ordering as std::cmp::PartialEq>::eq": "eq",
+}
+BINOPS = {"Lt": "lt", "Le": "le", "Gt": "gt", "Ge": "ge", "Eq": "eq", "Ne": "ne"}
+NEG = {"lt": "ge", "le": "gt", "gt": "le", "ge": "lt", "eq": "ne", "ne": "eq"}
+SWAP = {"lt": "gt", "le": "ge", "gt": "lt", "ge": "le", "eq": "eq", "ne": "ne"}
+
+
+class Cmp:
+    """A comparison feeding a switch: on `true_t` edges `lhs op rhs` holds, on `false_t` edges its negation."""
+    def __init__(self, body, bb, op, lhs, rhs, true_t, false_t, line, how):
+        self.body = body
+        self.bb = bb          # switch block
+        self.op = op
+        self.lhs = lhs        # operand
+        self.rhs = rhs
+        self.true_t = true_t
+        self.false_t = false_t
+        self.line = line
+        self.how = how
+
+    def lhs_origins(self):
+        return origins(self.body, self.lhs)
+
+    def rhs_origins(self):
+        return origins(self.body, self.rhs)
+
+    def edges_where(self, rel, a_pred, b_pred):
+        """Edges (bb, target) on which `A rel B` is known to hold, where A/B are identified by predicates
+        over origin lists. Returns [] if this comparison does not relate A and B."""
+        lo, ro = self.lhs_origins(), self.rhs_origins()
+        if a_pred(lo) and b_pred(ro):
+            op = self.op
+        elif a_pred(ro) and b_pred(lo):
+            op = SWAP[self.op]
+        else:
+            return []
+        out = []
+        if implies(op, rel):
+            out += [(self.bb, t) for t in self.true_t]
+        if implies(NEG[op], rel):
+            out += [(self.bb, t) for t in self.false_t]
+        return out
+
+    def __repr__(self):
+        return "<cmp %s L%s bb%d true->%s false->%s>" % (self.op, self.line, self.bb, self.true_t, self.false_t)
+
+
+def implies(op, rel):
+    """does `a op b` imply `a rel b`?"""
+    if op == rel:
+        return True
+    table = {("lt", "le"), ("lt", "ne"), ("gt", "ge"), ("gt", "ne"), ("eq", "le"), ("eq", "ge")}
+    return (op, rel) in table
+
+
+def comparisons(body):
+    """All comparisons that directly steer a switch in this body."""
+    out = []
+    for b in range(body.n):
+        for st in body.blocks[b]["stmts"]:
+            if st["k"] == "assign" and st["rv"]["k"] == "binop" and st["rv"]["op"] in BINOPS and not st["pl"]["p"]:
+                for (sb, tr, fl) in _bool_switches(body, st["pl"]["l"]):
+                    out.append(Cmp(body, sb, BINOPS[st["rv"]["op"]], st["rv"]["ops"][0], st["rv"]["ops"][1], tr, fl, st["line"], "binop"))
+        t = body.term(b)
+        if t["k"] == "call" and len(t["args"]) == 2 and not t["dest"]["p"]:
+            nm = strip_generics(t.get("resolved") or t.get("callee"))
+            dn = strip_generics(t.get("callee"))
+            op = CMP_CALLS.get(nm) or CMP_CALLS.get(dn)
+            if op is None and nm and nm.endswith("::eq") and "PartialEq" in (dn or ""):
+                op = "eq"
+            if op is None and nm and nm.endswith("::ne") and "PartialEq" in (dn or ""):
+                op = "ne"
+            if op is None and dn and dn.startswith("std::cmp::PartialOrd::"):
+                op = {"lt": "lt", "le": "le", "gt": "gt", "ge": "ge"}.get(dn.rsplit("::", 1)[1])
+            if op:
+                for (sb, tr, fl) in _bool_switches(body, t["dest"]["l"]):
+                    out.append(Cmp(body, sb, op, t["args"][0], t["args"][1], tr, fl, t["line"], nm))
+    return out
+
+
+def origin_pred_call(*names):
+    ns = set(names)
+    return lambda os: any(o.kind == "call" and o.name in ns for o in os)
+
+
+def origin_pred_field(*fields):
+    fs = set(fields)
+    return lambda os: any((set(o.path) & fs) or (o.kind == "upvar" and o.name in fs) for o in os)
+
+
+def origin_pred_any(*preds):
+    return lambda os: any(p(os) for p in preds)
+
+
+def stored_variants(body, st):
+    """Enum variant names (Some/None/Ok/Err/...) of the value assigned by statement st (through temps)."""
+    rv = st["rv"]
+    if rv["k"] == "aggregate":
+        return {rv.get("variant")}
+    if rv["k"] == "use":
+        return {o.name.rsplit("::", 1)[-1] for o in origins(body, rv["ops"][0]) if o.kind == "agg"}
+    return set()
